@@ -1,6 +1,6 @@
 (* Specification for C10/C11: the same roller expression evaluated by ENUMERATION - every leaf
-   contributes all its faces (all sorted rolls of a pool) with their counts, inner nodes combine
-   the Cartesian product of their sources' enumerations and multiply the weights.  Also the
+   contributes all its faces (all sorted rolls of a pool) with their probabilities count/total, inner
+   nodes combine the Cartesian product of their sources' enumerations and multiply the probabilities.  Also the
    expectation of a choice tree under a fair chooser. *)
 From Coq Require Import ZArith QArith List Bool Arith.
 From Dyce Require Import Base.Sums Base.Order Base.Hist Model.Select Model.Pool Model.Roller.
@@ -24,18 +24,20 @@ Fixpoint expect {A} (t : tree (T:=T) A) (g : res A -> Q) : Q :=
         (map (fun i => (inject_Z (nth i w 0%Z) / inject_Z tot) * expect (k i) g)%Q (seq 0 (length w)))
   end.
 
-(* weighted enumerations: (result, weight) pairs; the monad of finite weighted alternatives *)
-Definition wl (A : Type) := list (res A * Z).
-Definition wret {A} (a : A) : wl A := [(Ok a, 1)].
+(* finite distributions: (result, probability) pairs; the monad of finite weighted alternatives with
+   exact rational probabilities (a leaf of count c in a histogram of total t has probability c/t) *)
+Definition wl (A : Type) := list (res A * Q).
+Definition wret {A} (a : A) : wl A := [(Ok a, 1%Q)].
 Definition wbind {A B} (l : wl A) (f : A -> wl B) : wl B :=
   flat_map (fun ac => match fst ac with
-                      | Ok a => map (fun bd => (fst bd, snd ac * snd bd)) (f a)
+                      | Ok a => map (fun bd => (fst bd, (snd ac * snd bd)%Q)) (f a)
                       | Err e => [(Err e, snd ac)]
                       end) l.
-Definition wweight {A} (l : wl A) : Z := lsum snd l.
-(* the expectation under the normalised weights *)
+(* total mass (1 for every enumeration built below) *)
+Definition wweight {A} (l : wl A) : Q := fold_right Qplus 0%Q (map snd l).
+(* the expectation of g *)
 Definition wexpect {A} (l : wl A) (g : res A -> Q) : Q :=
-  (fold_right Qplus 0 (map (fun ac => inject_Z (snd ac) * g (fst ac)) l) / inject_Z (wweight l))%Q.
+  fold_right Qplus 0%Q (map (fun ac => (snd ac * g (fst ac))%Q) l).
 
 Fixpoint wseq {A} (l : list (wl A)) : wl (list A) :=
   match l with
@@ -45,7 +47,8 @@ Fixpoint wseq {A} (l : list (wl A)) : wl (list A) :=
 
 (* leaves: a histogram enumerates its faces with their counts (a zero-total histogram "rolls" 0) *)
 Definition h_enum (h : hist T) : wl T :=
-  if total h =? 0 then wret zeroT else map (fun oc => (Ok (fst oc), snd oc)) h.
+  if total h =? 0 then wret zeroT
+  else map (fun oc => (Ok (fst oc), (inject_Z (snd oc) / inject_Z (total h))%Q)) h.
 (* a pool enumerates the Cartesian product of its dice, each result sorted ascending *)
 Fixpoint p_enum_raw (p : list (hist T)) : wl (list T) :=
   match p with
@@ -57,7 +60,7 @@ Definition p_enum (p : list (hist T)) : wl (list T) := wbind (p_enum_raw p) (fun
 Definition select_enum (w : list sel) (vals : list T) : wl (rollv (T:=T)) :=
   let sorted := isort O vals in
   match resolve (length sorted) w with
-  | Err e => [(Err e, 1)]
+  | Err e => [(Err e, 1%Q)]
   | Ok idx =>
       let excluded := filter (fun i => negb (existsb (Nat.eqb i) idx)) (seq 0 (length sorted)) in
       wret (map (@Some T) (getitems sorted idx) ++ map (fun _ => None) excluded)
